@@ -90,7 +90,8 @@ func VerifC19Catalog(h *verifh.H) {
 			n := op + 1
 			for i := 0; i < n; i++ {
 				id := pool[h.Choice("id", len(pool))]
-				batch = append(batch, mk(id, "k"+itoa(k)+"i"+itoa(i)))
+				// the value is one of two, so a repeated id can carry an identical or a different version
+				batch = append(batch, mk(id, []string{"x", "y"}[h.Choice("tag", 2)]))
 				names[cur][id] = true
 			}
 			h.Assert(hub.Dsm.GetDataset(cur).StoreEntities(batch) == nil, "batch accepted")
